@@ -9,6 +9,7 @@ import (
 	"sort"
 	"strings"
 	"time"
+	"unicode"
 	"unicode/utf8"
 
 	"github.com/shopspring/decimal"
@@ -194,6 +195,35 @@ func runGoSemStream(c *Ctx, n int) {
 		cmp(i, "str itoa", map[string]any{"n": k}, fmt.Sprintf("%d", k), "str", "itoa", "-", "-", "-", itoa(k))
 		cmp(i, "str concat", map[string]any{"s": s, "a": old}, Hex(s+old), "str", "concat", Hex(s), Hex(old), "-", "0")
 		cmp(i, "str cmp", map[string]any{"s": s, "a": old}, fmt.Sprintf("%v %v", s < old, s == old), "str", "cmp", Hex(s), Hex(old), "-", "0")
+		// range over a string (byte offset, rune), byte slicing, strings.Index, strings.Builder, unicode.IsDigit, Decimal.Shift
+		var rs []string
+		for off, ch := range s {
+			rs = append(rs, fmt.Sprintf("%d:%d", off, ch))
+		}
+		cmp(i, "str runes", map[string]any{"s": s}, strings.Join(rs, " "), "str", "runes", Hex(s), "-", "-", "0")
+		slo, shi := r.Range(-1, len(s)+1), r.Range(-1, len(s)+1)
+		cut := func(o int) bool { return o >= 0 && o <= len(s) && (o == len(s) || utf8.RuneStart(s[o])) }
+		if slo < 0 || shi < slo || shi > len(s) || (cut(slo) && cut(shi)) { // a cut inside a UTF-8 sequence has no counterpart in the model
+			cmp(i, "str slice", map[string]any{"s": s, "lo": slo, "hi": shi}, gosemTry(func() string { return Hex(s[slo:shi]) }), "str", "slice", Hex(s), "-", Hex(itoa(shi)), itoa(slo))
+		}
+		cmp(i, "str index", map[string]any{"s": s, "sub": old}, itoa(strings.Index(s, old)), "str", "index", Hex(s), Hex(old), "-", "0")
+		var sb strings.Builder
+		sb.WriteString(s)
+		sb.WriteString(old)
+		bch := []rune{',', '-', 'é', '日', '0'}[r.Intn(5)]
+		sb.WriteRune(bch)
+		cmp(i, "str build", map[string]any{"s": s, "a": old, "ch": string(bch)}, Hex(sb.String()), "str", "build", Hex(s), Hex(old), "-", itoa(int(bch)))
+		cp := r.Range(0, 0x3000)
+		if r.Chance(1, 2) {
+			cp = r.Range(0, 127)
+		}
+		if utf8.ValidRune(rune(cp)) {
+			cmp(i, "str isdigit", map[string]any{"cp": cp}, fmt.Sprint(unicode.IsDigit(rune(cp))), "str", "isdigit", "-", "-", "-", itoa(cp))
+		}
+		if err1 == nil {
+			sh := r.Range(-6, 6)
+			cmp(i, "dec shift", map[string]any{"x": ds, "n": sh}, dx.Shift(int32(sh)).String(), "dec1", "shift", Hex(ds), itoa(sh))
+		}
 	}
 }
 
